@@ -157,6 +157,14 @@ fn random_request(rng: &mut StdRng, nonce: u64, big: bool) -> Request<Bytes> {
         let k = format!("echo-{}", rand_string(rng, 6));
         req.headers_mut().insert(k, rand_string(rng, 30));
     }
+    if rng.gen_bool(0.3) {
+        // header names are arbitrary strings: mixed case, and names equal up to case
+        req.headers_mut().insert("echo-Mixed-Case".into(), rand_string(rng, 8));
+        if rng.gen_bool(0.5) {
+            req.headers_mut().insert("echo-mixed-case".into(), rand_string(rng, 8));
+            req.headers_mut().insert("X-Trace-ID".into(), rand_string(rng, 8));
+        }
+    }
     if rng.gen_bool(0.6) {
         req.headers_mut()
             .insert("resp-len".into(), body_size(rng, big).to_string());
@@ -180,6 +188,14 @@ async fn workload(mut sim: Sim, o: Opts) -> Result<Value, String> {
     };
     let stream_limit = if o.mode == "abandon" { Some(8u64) } else { None };
     for (i, k) in keys.iter().enumerate() {
+        // some networks are built with a user outbound layer: the defaults must still apply
+        sim::USER_OUTBOUND_LAYER.with(|c| c.set(sim.rng.gen_bool(0.5)));
+        if o.mode == "abandon" && i < 2 {
+            // back-pressure at the top of the serving stack and a per-peer limiter below it
+            sim::SERVER_LIMITS.with(|c| c.set(Some((3, 2))));
+        } else {
+            sim::SERVER_LIMITS.with(|c| c.set(None));
+        }
         let mut config = base_config();
         config.max_frame_size = limits[i];
         quic(&mut config).max_idle_timeout_ms = Some(30_000);
@@ -209,6 +225,8 @@ async fn workload(mut sim: Sim, o: Opts) -> Result<Value, String> {
             }),
         );
     }
+    sim::USER_OUTBOUND_LAYER.with(|c| c.set(false));
+    sim::SERVER_LIMITS.with(|c| c.set(None));
     // full mesh
     for a in 0..n {
         for b in (a + 1)..n {
@@ -255,6 +273,9 @@ async fn workload(mut sim: Sim, o: Opts) -> Result<Value, String> {
                         .insert("delay-ms".into(), rng.gen_range(0..400).to_string());
                 }
                 call.must_succeed = true;
+            }
+            "replace" => {
+                req.headers_mut().insert("delay-ms".into(), rng.gen_range(0..300).to_string());
             }
             "abandon" => {
                 req.headers_mut().insert("delay-ms".into(), rng.gen_range(200..3_000).to_string());
@@ -338,6 +359,14 @@ async fn workload(mut sim: Sim, o: Opts) -> Result<Value, String> {
         }
         call.request = req;
         handles.push(spawn_call(&sim, call));
+        if o.mode == "replace" && k % 9 == 4 {
+            // re-dial while calls are in flight: the connection is replaced under them
+            sim.run.obs(-1, "obs.fault", json!({"redial": true}));
+            let (a, b) = if rng.gen_bool(0.5) { (0, 1) } else { (1, 0) };
+            let d = rng.gen_range(0..40);
+            settle(&mut sim, d).await;
+            let _ = sim.connect(a, sim.addr(b), Some(sim.peer_id(b))).await;
+        }
         if k % 7 == 0 {
             let d = rng.gen_range(0..30);
             settle(&mut sim, d).await;
